@@ -1,4 +1,6 @@
 """C10  CID and data problems surface as cutplace errors, never as internal failures."""
+import datetime
+import decimal
 import io
 import logging
 import os
@@ -14,7 +16,9 @@ HOSTILE = ["", " ", "'", '"', "'ab", '"ab', "(", ")", "[", "]", "{", "\\", "-", 
            "é", "ß€", "\x00", "\r", "\n", "a\nb", "\t", "NaN", "nan", "Infinity", "-inf", "sNaN", "1e999999", "1e-999999", "99999999999999999999999999",
            "-99999999999999999999", "0x", "0x1g", "1_", "1__0", "007", "1.5", "1,5", "'\\x4'", "'\\u12'", "'\\N{bad}'", "b'a'", "r'a'", "f'{x}'", "'''", "lambda",
            "None", "a b", "a.b", ".", "..", "....", "1...", "...1", "1...2...3", "5...1", "x" * 300, "١٢٣", "²", "1³", "①", "⁵⁶", "9" * 4400, "٣" * 4400, "1٣", "Ⅷ", "½", " ", "﻿", "%Q", "(?P<n>", "[a-", "a{2,1}", "*a", "\\", "DD.DD.YYYY", "hh:hh", "YYYY-YY-YYYY", "%d.%d",
-           "1\n  2\n 3", " 1\n2", "a\n\tb\n    c", "(\n1"]
+           "1\n  2\n 3", " 1\n2", "a\n\tb\n    c", "(\n1",
+           # an empty-mark on fields that must not be empty, empty / missing choices
+           "x", " X ", "''", '""', "a,''", "a,,b", ",a", "a,"]
 
 BASE_CIDS = {
     "delimited": [["D", "Format", "Delimited"], ["D", "Header", "1"], ["D", "Encoding", "utf-8"], ["D", "Allowed characters", "32..."],
@@ -154,6 +158,30 @@ def run(ctx):
                 ctx.sample(case)
                 if tag != "ok" and not core.is_cutplace_tag(tag):
                     ctx.violation("C10:data:%s:%s" % (ty, tag), "data cell %r in %s field %s makes %s raise %s" % (h, ty, field, api, tag), case)
+    # ---- cells that are no text at all, handed to the Python API: a data error, not a TypeError / AttributeError ---------
+    NON_TEXT = [None, 0, 17, 1.5, True, b"17", ["17"], ("a",), {"a": 1}, decimal.Decimal("1.5"), datetime.date(2024, 12, 31), object]
+    for data_cid_name, data_cid in (("delimited", cid), ("fixed", fixed_cid)):
+        for j in range(len(DATA_ROW)):
+            for value in NON_TEXT:
+                row = list(DATA_ROW)
+                row[j] = value
+                for api in ("write_row", "write_rows"):
+                    # (the validating writer is the public way to hand over cells that did not come out of a file)
+                    try:
+                        with validio.Writer(data_cid, io.StringIO()) as writer:
+                            if api == "write_row":
+                                writer.write_row(row)
+                            else:
+                                writer.write_rows([list(DATA_ROW), row])
+                        tag = "ok"
+                    except Exception as error:  # noqa
+                        tag = core.classify_exception(error)
+                    ty = DATA_CID[1 + j][5] + ("" if data_cid_name == "delimited" else "@fixed")
+                    case = {"field": DATA_CID[1 + j][1], "type": ty, "value": repr(value), "api": api, "outcome": tag}
+                    ctx.count(key=("non-text", data_cid_name, j, repr(value), api), branch="non-text:%s:%s" % (type(value).__name__, tag))
+                    if tag == "ok" or not core.is_cutplace_tag(tag):
+                        ctx.violation("C10:data:non-text:%s:%s" % (type(value).__name__, tag),
+                                      "cell %r (no text) in %s field %s: %s gives %s" % (value, ty, DATA_CID[1 + j][1], api, tag), case)
     # ---- end-of-data expressions: DistinctCount rules whose evaluation fails only for particular counts -----------------
     END_EXPRESSIONS = ["% (count - 2) == 0", "/ (count - 1) > 0", "< [5, 6, 7][count]", "== {0: 0, 1: 1}[count]", "< int('1' * (1 + count * 2200))",
                        "< 3 if count < 3 else count.missing", "< 2 or undefined_name", "< 10 and count / (count - 3) != 2", "<= (1, 2)[count - 1]", "< 5"]
@@ -254,7 +282,7 @@ def run(ctx):
                     if tag != "ok" and not core.is_cutplace_tag(tag):
                         ctx.violation("C10:container-fixed:%s:%s" % (name, tag), "fixed-width container fault %s in mode %s (%s) raises %s" % (name, mode, api, tag), {"fault": name, "mode": mode, "api": api})
         # ---- spreadsheet containers: cells the reader's library refuses, archives damaged at byte level ----------------------
-        import datetime
+        pass  # datetime is imported at module level
         import random
         import xlsxwriter
         import ods_enc
